@@ -249,3 +249,189 @@ theorem place_pinv (s s' : Net) (i : Nat) (hs : PInv s) (hi : i < s.nIf) (hnone 
     rfl
 
 end I2N.Net
+
+namespace I2N.Net
+
+/-- every registered netconfig was constructed `from_interface` of some interface (build phase only:
+    interface addresses do not change) -/
+def Origin (s : Net) : Prop :=
+  ∀ k n, (k, n) ∈ s.reg → ∃ j, j < s.nIf ∧ (s.nc n).netmask = (s.iface j).netmask ∧
+    (s.nc n).netIp = networkIp (s.iface j).ip (maskBit (s.iface j).netmask)
+
+/-- no two interfaces configure subnets with the same network address but different netmasks -/
+def NoShadowS (s : Net) : Prop :=
+  ∀ i j, i < s.nIf → j < s.nIf →
+    networkIp (s.iface i).ip (maskBit (s.iface i).netmask) = networkIp (s.iface j).ip (maskBit (s.iface j).netmask) →
+    (s.iface i).netmask = (s.iface j).netmask
+
+theorem noShadow_key (s : Net) (i : Nat) (hs : PInv s) (ho : Origin s) (hsh : NoShadowS s) (hi : i < s.nIf)
+    (hno : ∀ k n, (k, n) ∈ s.reg → networkIp (s.iface i).ip (s.nc n).bits ≠ (s.nc n).netIp) :
+    hasKey (fromInterface (s.iface i)).netIp s.reg = false := by
+  rw [hasKey_false_iff]
+  intro n hm
+  obtain ⟨j, hj, hmask, hip⟩ := ho _ n hm
+  have hkey := (hs.regKey _ n hm).2
+  have heq : networkIp (s.iface i).ip (maskBit (s.iface i).netmask) =
+      networkIp (s.iface j).ip (maskBit (s.iface j).netmask) := by
+    rw [← hip, hkey]; rfl
+  have hmm := hsh i j hi hj heq
+  apply hno _ n hm
+  rw [Netconfig.bits, hmask, ← hmm, hkey]; rfl
+
+/-- `place` changes neither addresses nor netmasks and attaches exactly interface `i` -/
+theorem place_frame (s s' : Net) (i : Nat) (h : place s i = .ok s') :
+    s'.nIf = s.nIf ∧ (∀ j, (s'.iface j).ip = (s.iface j).ip ∧ (s'.iface j).netmask = (s.iface j).netmask) ∧
+    (∀ j, j ≠ i → (s'.iface j).nc = (s.iface j).nc) ∧ ((s'.iface i).nc).isSome = true := by
+  rcases place_cases s s' i h with ⟨n, _, hadd⟩ | ⟨_, t, hadd, rfl⟩
+  · obtain ⟨rfl, _⟩ := addInterface_ok _ _ _ _ hadd
+    refine ⟨rfl, ?_, ?_, ?_⟩
+    · intro j; rw [attachState_iface]; split <;> exact ⟨rfl, rfl⟩
+    · intro j hj; rw [attachState_iface, if_neg hj]
+    · rw [attachState_iface, if_pos rfl]; rfl
+  · obtain ⟨rfl, _⟩ := addInterface_ok _ _ _ _ hadd
+    refine ⟨rfl, ?_, ?_, ?_⟩
+    · intro j; show ((attachState _ _ _).iface j).ip = _ ∧ _; rw [attachState_iface]; split <;> exact ⟨rfl, rfl⟩
+    · intro j hj; show ((attachState _ _ _).iface j).nc = _; rw [attachState_iface, if_neg hj]
+    · show (((attachState _ _ _).iface i).nc).isSome = true; rw [attachState_iface, if_pos rfl]; rfl
+
+theorem place_origin (s s' : Net) (i : Nat) (hi : i < s.nIf) (ho : Origin s) (hs : PInv s)
+    (h : place s i = .ok s') : Origin s' := by
+  have hfr := place_frame s s' i h
+  rcases place_cases s s' i h with ⟨n, _, hadd⟩ | ⟨_, t, hadd, rfl⟩
+  · obtain ⟨rfl, _⟩ := addInterface_ok _ _ _ _ hadd
+    intro k m hm
+    obtain ⟨j, hj, h1, h2⟩ := ho k m hm
+    refine ⟨j, hj, ?_, ?_⟩
+    · rw [attachState_netmask, (hfr.2.1 j).2]; exact h1
+    · rw [attachState_netIp, (hfr.2.1 j).1, (hfr.2.1 j).2]; exact h2
+  · obtain ⟨rfl, _⟩ := addInterface_ok _ _ _ _ hadd
+    intro k m hm
+    have hm' : (k, m) ∈ s.reg ∨ (k, m) = ((fromInterface (s.iface i)).netIp, s.nNc) := by
+      have := (mem_aset _ _ _ _).1 hm
+      rcases this with h | ⟨_, h⟩
+      · exact Or.inr h
+      · exact Or.inl h
+    show ∃ j, j < s.nIf ∧ ((attachState _ _ _).nc m).netmask = ((attachState _ _ _).iface j).netmask ∧
+      ((attachState _ _ _).nc m).netIp = networkIp ((attachState _ _ _).iface j).ip (maskBit ((attachState _ _ _).iface j).netmask)
+    rcases hm' with hm' | heq
+    · obtain ⟨j, hj, h1, h2⟩ := ho k m hm'
+      have hne : m ≠ s.nNc := by have := (hs.regKey k m hm').1; omega
+      refine ⟨j, hj, ?_, ?_⟩
+      · rw [attachState_netmask]
+        have := (hfr.2.1 j).2
+        simp only [hne, if_false]
+        rw [h1]; exact this.symm
+      · rw [attachState_netIp]
+        have h3 := (hfr.2.1 j).1
+        have h4 := (hfr.2.1 j).2
+        simp only [hne, if_false]
+        rw [h2]
+        show _ = networkIp ((attachState _ _ _).iface j).ip (maskBit ((attachState _ _ _).iface j).netmask)
+        rw [← h3, ← h4]
+    · cases heq
+      refine ⟨i, hi, ?_, ?_⟩
+      · rw [attachState_netmask, attachState_iface, if_pos rfl]; simp [fromInterface]
+      · rw [attachState_netIp, attachState_iface, if_pos rfl]; simp [fromInterface]
+
+end I2N.Net
+
+namespace I2N.Net
+
+theorem placeAll_inv (ids : List Nat) : ∀ (s s' : Net), PInv s → Origin s → NoShadowS s → ids.Nodup →
+    (∀ i ∈ ids, i < s.nIf ∧ (s.iface i).nc = none) → placeAll s ids = .ok s' →
+    PInv s' ∧ s'.nIf = s.nIf ∧ (∀ i ∈ ids, ((s'.iface i).nc).isSome = true) ∧
+      (∀ j, j ∉ ids → (s'.iface j).nc = (s.iface j).nc) := by
+  induction ids with
+  | nil =>
+    intro s s' hs _ _ _ _ h
+    simp only [placeAll, Except.ok.injEq] at h
+    subst h
+    exact ⟨hs, rfl, by simp, fun _ _ => rfl⟩
+  | cons i ids ih =>
+    intro s s' hs ho hsh hnd hids h
+    simp only [placeAll] at h
+    split at h
+    · cases h
+    · rename_i s1 h1
+      have ⟨hi, hnone⟩ := hids i (by simp)
+      have hfr := place_frame s s1 i h1
+      have hs1 : PInv s1 := place_pinv s s1 i hs hi hnone (noShadow_key s i hs ho hsh hi) h1
+      have ho1 : Origin s1 := place_origin s s1 i hi ho hs h1
+      have hsh1 : NoShadowS s1 := by
+        intro a b ha hb hab
+        rw [hfr.1] at ha hb
+        rw [(hfr.2.1 a).1, (hfr.2.1 a).2, (hfr.2.1 b).1, (hfr.2.1 b).2] at hab
+        rw [(hfr.2.1 a).2, (hfr.2.1 b).2]
+        exact hsh a b ha hb hab
+      have hnd' := List.nodup_cons.1 hnd
+      have hids1 : ∀ j ∈ ids, j < s1.nIf ∧ (s1.iface j).nc = none := by
+        intro j hj
+        have hji : j ≠ i := by rintro rfl; exact hnd'.1 hj
+        rw [hfr.1, hfr.2.2.1 j hji]
+        exact hids j (by simp [hj])
+      obtain ⟨r1, r2, r3, r4⟩ := ih s1 s' hs1 ho1 hsh1 hnd'.2 hids1 h
+      refine ⟨r1, by rw [r2, hfr.1], ?_, ?_⟩
+      · intro j hj
+        rcases List.mem_cons.1 hj with rfl | hj
+        · by_cases hmem : j ∈ ids
+          · exact r3 j hmem
+          · rw [r4 j hmem]; exact hfr.2.2.2
+        · exact r3 j hj
+      · intro j hj
+        simp only [List.mem_cons, not_or] at hj
+        rw [r4 j hj.2, hfr.2.2.1 j hj.1]
+
+theorem init_iface (inp : List Iface) (i : Nat) (hi : i < inp.length) :
+    ((init inp).iface i).ip = inp[i].ip ∧ ((init inp).iface i).netmask = inp[i].netmask ∧
+    ((init inp).iface i).nc = none := by
+  simp [init, List.getD_eq_getElem?_getD, List.getElem?_eq_getElem hi]
+
+theorem init_pinv (inp : List Iface) (hd : (inp.map (·.ip)).Nodup) : PInv (init inp) := by
+  refine ⟨?_, ?_, ?_, ?_, ?_, ?_⟩
+  · intro k n hm; simp [init] at hm
+  · simp [init]
+  · intro n; simp only [init]; exact List.nodup_nil
+  · rintro n ⟨k, hm⟩; simp [init] at hm
+  · intro i n hi _ hn
+    have : ((init inp).iface i).nc = none := rfl
+    rw [this] at hn; cases hn
+  · intro i j hi hj hij
+    have hi' : i < inp.length := hi
+    have hj' : j < inp.length := hj
+    rw [(init_iface inp i hi').1, (init_iface inp j hj').1] at hij
+    have h1 : (inp.map (·.ip))[i]'(by simpa using hi') = (inp.map (·.ip))[j]'(by simpa using hj') := by
+      simpa using hij
+    exact (List.getElem_inj hd).1 h1
+
+/-- input-level form of `NoShadowS`: equal network addresses imply equal netmasks -/
+def NoShadow (inp : List Iface) : Prop :=
+  ∀ a ∈ inp, ∀ b ∈ inp, networkIp a.ip (maskBit a.netmask) = networkIp b.ip (maskBit b.netmask) →
+    a.netmask = b.netmask
+
+theorem init_noShadow (inp : List Iface) (h : NoShadow inp) : NoShadowS (init inp) := by
+  intro i j hi hj hij
+  have hi' : i < inp.length := hi
+  have hj' : j < inp.length := hj
+  obtain ⟨a1, a2, _⟩ := init_iface inp i hi'
+  obtain ⟨b1, b2, _⟩ := init_iface inp j hj'
+  rw [a1, a2, b1, b2] at hij
+  rw [a2, b2]
+  exact h _ (List.getElem_mem hi') _ (List.getElem_mem hj') hij
+
+/-- consistent registries and every interface attached -/
+def Inv (s : Net) : Prop := PInv s ∧ ∀ i, i < s.nIf → ((s.iface i).nc).isSome = true
+
+theorem build_inv (inp : List Iface) (s : Net) (hd : (inp.map (·.ip)).Nodup) (hsh : NoShadow inp)
+    (h : build inp = .ok s) : Inv s ∧ s.nIf = inp.length := by
+  unfold build at h
+  have hids : ∀ i ∈ List.range inp.length, i < (init inp).nIf ∧ ((init inp).iface i).nc = none := by
+    intro i hi
+    exact ⟨by simpa [init] using hi, rfl⟩
+  obtain ⟨r1, r2, r3, _⟩ := placeAll_inv (List.range inp.length) (init inp) s (init_pinv inp hd)
+    (by intro k n hm; simp [init] at hm) (init_noShadow inp hsh) List.nodup_range hids h
+  refine ⟨⟨r1, ?_⟩, r2⟩
+  intro i hi
+  rw [r2] at hi
+  exact r3 i (by simpa [init] using hi)
+
+end I2N.Net
